@@ -31,6 +31,7 @@ type Evaluator struct {
 	endRules       []*Rule
 	endFileRules   []*Rule
 	fuzzing        bool
+	signalToken    *Token // where the most recent next/break/continue was executed
 }
 
 var (
@@ -115,6 +116,10 @@ func (e *Evaluator) error(token Token, msg string) RuntimeError {
 func (e *Evaluator) straySignalError(err error, token Token) error {
 	switch err {
 	case errNext, errBreak, errContinue, errReturn:
+		if e.signalToken != nil && err != errReturn {
+			// point at the statement that raised the signal
+			token = *e.signalToken
+		}
 		return e.error(token, fmt.Sprintf("%s is not allowed here", err.Error()))
 	}
 	return err
@@ -1051,10 +1056,13 @@ func (e *Evaluator) evalStatement(stmt Statement) error {
 			return e.error(st.Iterable.Token(), fmt.Sprintf("%s is not iterable", iterable.Value.Tag))
 		}
 	case *StatementBreak:
+		e.signalToken = &st.token
 		return errBreak
 	case *StatementContinue:
+		e.signalToken = &st.token
 		return errContinue
 	case *StatementNext:
+		e.signalToken = &st.token
 		return errNext
 	case *StatementExit:
 		return errExit
